@@ -86,6 +86,22 @@ func init() {
 	runner.Register(&runner.Check{
 		ID:    "C09",
 		Level: "exploration",
+		// every worker process starts from another compilation history: odd
+		// shards compile against the pointer form of the environment first,
+		// even shards against the value form (what a process compiled before
+		// must not change what it compiles next)
+		Init: func(c *runner.Ctx) {
+			sample := envs.New(&envs.Log{})
+			envs.Fill(sample, 2, runner.NewRng(1))
+			if c.Shard%2 == 1 {
+				SafeCompile("PInc(A) + Inc(B)", expr.Env(sample))
+			} else {
+				SafeCompile("Inc(A) + B", expr.Env(*sample))
+			}
+			if c.Shard%4 >= 2 {
+				SafeCompile("M1 + M2", expr.Env(newOpEnv(runner.NewRng(1))))
+			}
+		},
 		Rule: "case = one (source, option set): compiled 4 times in the process and once in every one of the 16 worker processes (phase cross-process) with digests of bytecode, typed constants (maps sorted), locations and source compared; then run twice on equal environments with deep snapshots (unexported fields, full backing arrays up to cap, maps, pointees) of the environment, the sample environment and the program taken before and after; option sets include several Operator candidates, six ConstExpr functions, both optimizer settings; " +
 			"distinct = distinct (source, option set) that compile",
 		Assumptions: []string{"across processes = the worker processes of one build on one machine", "functions inside environments are compared by nil-ness only"},
